@@ -8,6 +8,7 @@ import (
 	"go/ast"
 	"go/token"
 	"go/types"
+	"os"
 	"sort"
 	"strings"
 
@@ -414,13 +415,34 @@ func (c *Ctx) visitedGuarded(fi *core.FuncInfo, call *ast.CallExpr) bool {
 		// or the callee receives a map computed from the tested key (helper form: visitedWith(key))
 		keyObj := core.ObjOf(info, key)
 		handed := false
-		ast.Inspect(call, func(a ast.Node) bool {
-			inner, ok := a.(*ast.CallExpr)
-			if !ok || inner == call || !core.IsMap(info.TypeOf(inner)) {
-				return true
+		extends := func(inner *ast.CallExpr) bool {
+			if !core.IsMap(info.TypeOf(inner)) {
+				return false
 			}
 			for _, arg := range inner.Args {
 				if sameExpr(arg, key) || keyObj != nil && core.ObjOf(info, arg) == keyObj {
+					return true
+				}
+			}
+			return false
+		}
+		ast.Inspect(call, func(a ast.Node) bool {
+			switch x := a.(type) {
+			case *ast.CallExpr:
+				if x != call && extends(x) {
+					handed = true
+				}
+			case *ast.Ident:
+				// the extended set first stored in a local: `next := withKey(set, key)` … `rec(…, next)`
+				o := core.ObjOf(info, x)
+				if o == nil || !core.IsMap(o.Type()) {
+					return true
+				}
+				defs := c.P.Locals(fi).Defs[o]
+				if len(defs) != 1 || defs[0].Kind != core.DefAssign {
+					return true
+				}
+				if inner, ok := core.Unparen(defs[0].Expr).(*ast.CallExpr); ok && inner.Pos() > cd.Expr.Pos() && inner.End() < call.Pos() && extends(inner) && !c.mayChangeBetween(fi, key, cd.Expr.Pos(), inner.Pos()) {
 					handed = true
 				}
 			}
@@ -609,6 +631,11 @@ func termRules(c *Ctx) {
 		var names []string
 		for i, f := range scc {
 			names = append(names, f.Name()+"["+bestAssign[i].String()+"]")
+		}
+		if os.Getenv("VERIF_DEBUG") == "term" {
+			for ei, e := range edges {
+				fmt.Fprintf(os.Stderr, "TERM-DEBUG %s -> %s : %s (caller %s, callee %s)\n", e.caller.Name(), e.callee.Name(), bestRel[ei], bestAssign[pos[e.caller]].String(), bestAssign[pos[e.callee]].String())
+			}
 		}
 		for ei, e := range edges {
 			nEdges++
